@@ -475,6 +475,25 @@ def run(tier, rep):
         classes["infer:" + r["verdict"]] += 1
         records.append(compile_record(q["id"], r))
         by_id[q["id"]] = (q, r)
+    # ---- why the loop of the type checker ends: Solver.tla (model: every round that reports a change makes the measure smaller,
+    # so the loop terminates; the variant in which a deferred constraint claims progress must violate that) and SolverTrace.tla on
+    # the rounds the real solver ran for the inference-stress programs, the programs around repaired defects and the corpus
+    import solvertrace, corpus, fam_found
+    import tv as tv_
+    for cfg, want in (("Solver.cfg", None), ("Solver_spin.cfg", "Progress")):
+        sm = run_tlc("Solver", cfg, workers=4, xmx="4g", timeout=600)
+        if sm.violated != want:
+            if want is None:
+                rep.violation(f"model:{cfg}:{sm.violated}", {"trace": sm.trace[-3:]})
+            else:
+                raise ToolError(f"model self-test: {cfg} should violate {want}, got {sm.violated or sm.error}")
+    scases = [{"id": q["id"], "text": q["text"], "dir": memdir, "ident": q["id"]} for q, r in zip(ireqs, ires) if r["verdict"] not in ("timeout", "abort")]
+    scases += [{"id": "corpus:" + c["name"], "path": c["src"], "ident": "corpus:" + c["name"]} for c in corpus.single_file_cases() + corpus.package_cases()]
+    scases += [{"id": c["id"], "path": c["path"], "ident": c["ident"]} for c in tv_.prepare_cases(fam_found.programs(tier), workdir("c04-solver-found"))]
+    sst = solvertrace.validate(scases, rep, "c04", limit_ms=INFER_LIMIT_S * 1000)
+    rep.coverage["solver_trace"] = sst
+    if sst["programs"] < 1000 or sst["rounds_reporting_a_change"] < 1000 or sst["calls_that_end_with_pending_constraints"] < 50:
+        raise ToolError(f"vacuity: solver traces too thin: {sst}")
     rep.coverage["inference_stress_programs"] = len(infer)
     rep.coverage["inference_stress_well_typed"] = classes["infer:ok"]
     if classes["infer:ok"] < 200 or classes["infer:typer"] < 1000:
